@@ -174,6 +174,7 @@ def gen_gate(ctx, n):
     cases = []
     for _ in range(n):
         T = rng.randint(2, 3)
+        erase_heavy = False
         if rng.random() < 0.4:
             # growth scenario: the table holds 254 (or 510) keys, the next insert doubles it while other threads look up keys
             # whose home bucket changes with the new mask
@@ -185,6 +186,16 @@ def gen_gate(ctx, n):
             keys = hot + [7000, 7001]
             head = [len(pre)] + pre
             longb = True
+        elif rng.random() < 0.4:
+            # chain scenario: several keys already sit in ONE bucket's chain; the threads erase / look up different keys of
+            # that chain at the same time (reader locks on the bucket, racing reader-to-writer upgrades, unlink of non-head nodes)
+            base = rng.choice([5, 6, 77])
+            keys = [base + 256 * i for i in range(rng.randint(2, 4))]
+            pre = keys[:]
+            rng.shuffle(pre)
+            head = [len(pre)] + pre
+            longb = False
+            erase_heavy = True
         else:
             keys = rng.choice([[0, 1], [2, 258], [5, 5 + 256, 5 + 512], [3, 7, 259], [0, 256, 1]])
             head = [0]
@@ -194,13 +205,13 @@ def gen_gate(ctx, n):
             ln = rng.randint(1, 4 if T == 2 else 3)
             ops = []
             for _ in range(ln):
-                ops += [rng.choice([1, 1, 1, 2, 2, 3, 4, 5, 6]), rng.choice(keys)]
+                ops += [rng.choice([2, 2, 2, 2, 1, 3, 4]) if erase_heavy else rng.choice([1, 1, 1, 2, 2, 3, 4, 5, 6]), rng.choice(keys)]
             c += [ln] + ops
         c.append(-1)
         sched = []
         L = rng.randint(40, 900)
         while len(sched) < L:
-            sched += [rng.randrange(T)] * (rng.choice([1, 3, 10, 40, 120, 300]) if longb else rng.randint(1, 25))
+            sched += [rng.randrange(T)] * (rng.choice([1, 3, 10, 40, 120, 300]) if longb else rng.randint(1, 6) if erase_heavy else rng.randint(1, 25))
         cases.append(c + sched)
     return cases
 
